@@ -6,7 +6,9 @@
  * capacity > 256 <=> contents in a heap block of exactly `capacity` bytes owned by this object.
  * Abstract view: (m_size, m_chars[0..m_size)) observed at the arbitrary index GI0.                                            */
 #define SS_STACK (sizeof(((struct ST_string_stream *)0)->m_stack))
-#define SS_MAX ((size_t)1 << 38)      /* contents + appended bytes stay below 2^39, so a doubled capacity stays below ST_MAXN = 2^40 */
+#define SS_MAX ((size_t)1 << 37)      /* contents and each appended chunk stay below 2^37, so a doubled capacity stays below ST_MAXN = 2^40 */
+#define SS_SLACK 4096                /* expand_buffer's own contract is proved for sizes up to SS_MAX + SS_SLACK: callers may append a few more bytes in several steps */
+size_t SS_NBOUND;
 #define WF_SS(s) ((s)->m_size <= (s)->m_alloc && (s)->m_alloc >= SS_STACK && (s)->m_alloc <= ST_MAXN \
     && ((s)->m_alloc == SS_STACK ? (s)->m_chars == (s)->m_stack : 1) \
     && ((s)->m_alloc >  SS_STACK ? (__CPROVER_DYNAMIC_OBJECT((s)->m_chars) && __CPROVER_POINTER_OFFSET((s)->m_chars) == 0 && __CPROVER_OBJECT_SIZE((s)->m_chars) == (s)->m_alloc && __CPROVER_r_ok((s)->m_chars, (s)->m_alloc)) : 1))
@@ -16,12 +18,12 @@
 #else
 #define FAULT_ON 0
 #endif
-static void ss_ghosts(void) { GI0 = nondet_size_t(); GI1 = nondet_size_t(); GI2 = nondet_size_t(); ST_EXC = 0; ST_LIVE = 0; ST_FAULT = FAULT_ON; TRL_CALLS = 0; TRL_S = NULL; TRL_RET = 0; TR_SMALL = TR_SMALL2 = NULL; TR_BIG1 = TR_BIG2 = TR_BIG3 = NULL; ST_NEWEST = NULL; }
+static void ss_ghosts(void) { GI0 = nondet_size_t(); GI1 = nondet_size_t(); GI2 = nondet_size_t(); ST_EXC = 0; ST_LIVE = 0; ST_FAULT = FAULT_ON; TRL_CALLS = 0; TRL_S = NULL; TRL_RET = 0; SS_NBOUND = 0; TR_SMALL = TR_SMALL2 = NULL; TR_BIG1 = TR_BIG2 = TR_BIG3 = NULL; ST_NEWEST = NULL; }
 /* an arbitrary well-formed stream: symbolic capacity (256 in-object, or any larger heap capacity), symbolic size and contents */
 static void mk_ss(struct ST_string_stream *s)
 {
     size_t a = nondet_size_t(), n = nondet_size_t();
-    __CPROVER_assume(a >= SS_STACK && a <= ST_MAXN && n <= a && n < SS_MAX);
+    __CPROVER_assume(a >= SS_STACK && a <= ST_MAXN && n <= a && n < (SS_NBOUND ? SS_NBOUND : SS_MAX));
 #ifdef ONLY_STACK
     __CPROVER_assume(a == SS_STACK);
 #endif
@@ -42,15 +44,15 @@ static void mk_ss(struct ST_string_stream *s)
 #ifdef STUB_ST_string_stream_expand_buffer
 void ST_string_stream_expand_buffer(struct ST_string_stream *self, unsigned long added_size)
 {
-    __CPROVER_assert(WF_SS(self) && self->m_size < SS_MAX && added_size < SS_MAX, "expand_buffer.precondition: valid stream, sizes below 2^38");
+    __CPROVER_assert(WF_SS(self) && self->m_size < SS_MAX + SS_SLACK && added_size < SS_MAX, "expand_buffer.precondition: valid stream, sizes below 2^37");
     if (self->m_size + added_size <= self->m_alloc) return;                                  /* post.5 */
     if (ST_FAULT && nondet_bool()) { ST_EXC = EXC_std_bad_alloc; return; }                 /* post.6/7 */
     size_t na = nondet_size_t(); __CPROVER_assume(na >= self->m_size + added_size && na > SS_STACK && na <= ST_MAXN);
-    char at = GI0 < self->m_size ? self->m_chars[GI0] : 0;
+    char at = GI0 < self->m_size ? self->m_chars[GI0] : 0, at3 = GI3 < self->m_size ? self->m_chars[GI3] : 0;
     char *nb = malloc(na); __CPROVER_assume(nb != NULL); ST_LIVE++; ST_NEWEST = nb;
     if (SS_OWNS(self)) { free(self->m_chars); ST_LIVE--; }                                 /* post.4 */
     self->m_chars = nb; self->m_alloc = na;                                                /* post.1/2 */
-    __CPROVER_assume(GI0 >= self->m_size || nb[GI0] == at);                                /* post.3 */
+    __CPROVER_assume((GI0 >= self->m_size || nb[GI0] == at) && (GI3 >= self->m_size || nb[GI3] == at3));     /* post.3 */
 }
 #endif
 
@@ -70,13 +72,14 @@ void h_ss_dtor(void)
 /* ---- expand_buffer: growth by doubling */
 void h_ss_expand(void)
 {
-    ss_ghosts(); struct ST_string_stream s; mk_ss(&s); SNAP_SS(&s, s0); long live0 = ST_LIVE;
+    ss_ghosts(); GI3 = nondet_size_t(); SS_NBOUND = SS_MAX + SS_SLACK; struct ST_string_stream s; mk_ss(&s); SNAP_SS(&s, s0); long live0 = ST_LIVE;
+    char s0_at3 = GI3 < s0_size ? s.m_chars[GI3] : 0;
     size_t add = nondet_size_t(); __CPROVER_assume(add < SS_MAX);
     ST_string_stream_expand_buffer(&s, add);
     if (ST_EXC == 0) {
         __CPROVER_assert(WF_SS(&s), "ST_string_stream_expand_buffer.postcondition.1: the stream is valid after growth");
         __CPROVER_assert(s.m_alloc >= s0_size + add && s.m_size == s0_size, "ST_string_stream_expand_buffer.postcondition.2: capacity covers size + added bytes; size unchanged");
-        __CPROVER_assert(SS_PREFIX_KEPT(&s, s0), "ST_string_stream_expand_buffer.postcondition.3: every byte already appended is preserved across the switch to (larger) heap storage");
+        __CPROVER_assert(SS_PREFIX_KEPT(&s, s0) && (GI3 >= s0_size || s.m_chars[GI3] == s0_at3), "ST_string_stream_expand_buffer.postcondition.3: every byte already appended is preserved across the switch to (larger) heap storage");
         __CPROVER_assert(ST_LIVE == live0 - s0_owns + SS_OWNS(&s), "ST_string_stream_expand_buffer.postcondition.4: the old heap block is released exactly when it is replaced; nothing leaked or freed twice");
         __CPROVER_assert(s0_size + add > s0_alloc || SS_UNCHANGED(&s, s0), "ST_string_stream_expand_buffer.postcondition.5: no reallocation when the bytes fit");
     } else {
@@ -254,3 +257,38 @@ void h_ss_wide(void)
         __CPROVER_assert(WF_SS(&s) && SS_UNCHANGED(&s, s0) && ST_LIVE == live0, "ST_string_stream_wide.postcondition.5: a rejected text (unicode_error) or failed allocation leaves the stream unchanged and leaks nothing");
     }
 }
+
+/* ---- integers: operator<<(int / unsigned / long / unsigned long / long long / unsigned long long) over the CONTRACT of
+ * uint_formatter<T>::format (harness/numeric_stubs.h; proved in the C12 jobs): the same magnitude, base 10, lower case, as from_int */
+#include "/verif/harness/numeric_stubs.h"
+#ifdef SS_INT
+#ifndef INT_SEL
+#define INT_SEL 0
+#endif
+void h_ss_int(void)
+{
+    ss_ghosts(); FMT.calls = 0; struct ST_string_stream s; mk_ss(&s); SNAP_SS(&s, s0); long live0 = ST_LIVE;
+    GI3 = s0_size;     /* instantiation hint: the sign position survives the growth of the second append */
+    _Bool neg; unsigned long long mag; struct ST_string_stream *r;
+#if INT_SEL == 0
+    int v = nondet_int(); neg = v < 0; mag = neg ? (unsigned int)0 - (unsigned int)v : (unsigned int)v; r = ST_string_stream_op_shl__i(&s, v);
+#elif INT_SEL == 1
+    unsigned int v = nondet_unsigned(); neg = 0; mag = v; r = ST_string_stream_op_shl__u(&s, v);
+#elif INT_SEL == 2
+    long v = (long)nondet_llong(); neg = v < 0; mag = neg ? (unsigned long)0 - (unsigned long)v : (unsigned long)v; r = ST_string_stream_op_shl__l(&s, v);
+#elif INT_SEL == 3
+    unsigned long v = (unsigned long)nondet_ullong(); neg = 0; mag = v; r = ST_string_stream_op_shl__ul(&s, v);
+#elif INT_SEL == 4
+    long long v = nondet_llong(); neg = v < 0; mag = neg ? (unsigned long long)0 - (unsigned long long)v : (unsigned long long)v; r = ST_string_stream_op_shl__ll(&s, v);
+#else
+    unsigned long long v = nondet_ullong(); neg = 0; mag = v; r = ST_string_stream_op_shl__ull(&s, v);
+#endif
+    __CPROVER_assert(FMT.calls == 1 && FMT.value == mag && FMT.radix == 10 && !FMT.upper, "ST_string_stream_int.postcondition.1: formats exactly the magnitude |value| in base 10 (no undefined negation, most negative value included)");
+    if (ST_EXC == 0) {
+        __CPROVER_assert(r == &s && WF_SS(&s) && s.m_size == s0_size + FMT.k + (neg ? 1 : 0) && SS_PREFIX_KEPT(&s, s0), "ST_string_stream_int.postcondition.2: appends the digits (and one sign character for negatives); earlier contents unchanged");
+        __CPROVER_assert(!neg || s.m_chars[s0_size] == '-', "ST_string_stream_int.postcondition.3: negatives start with '-'");
+        __CPROVER_assert(GI1 >= FMT.k || s.m_chars[s0_size + (neg ? 1 : 0) + GI1] == FMT.at, "ST_string_stream_int.postcondition.4: the digits are exactly the formatter's text, in order");
+        __CPROVER_assert(ST_LIVE == live0 - s0_owns + SS_OWNS(&s), "ST_string_stream_int.postcondition.5: nothing leaked");
+    }
+}
+#endif
